@@ -1,5 +1,7 @@
 //! vharness: correspondence between /repo (linked in-process with `verif-hooks`) and the Lean
 //! model driver, plus per-property oracles used to search for replays (DESIGN.md §4.2, §5).
+mod c02;
+mod c03;
 mod c09;
 mod c11;
 mod c12;
@@ -8,6 +10,8 @@ mod c15;
 mod c17;
 mod ctl;
 mod driver;
+mod expat;
+mod xmlgen;
 mod geom;
 mod report;
 mod rng;
@@ -48,6 +52,9 @@ fn main() {
         return;
     }
     let r = match prop.as_str() {
+        "C02" => c02::run_c02(&mut rep, &tier, seed),
+        "C03" => c03::run(&mut rep, &tier, seed),
+        "C05" => c02::run_c05(&mut rep, &tier, seed),
         "C09" => c09::run(&mut rep, &tier, seed),
         "C11" => c11::run(&mut rep, &tier, seed),
         "C12" => c12::run(&mut rep, &tier, seed),
